@@ -79,6 +79,7 @@ class SqliteImpl(SqlImpl):
                 ops.max,
                 ops.fill_null,
                 ops.coalesce,
+                ops.shift,
                 ops.clip,
                 ops.floor,
                 ops.ceil,
@@ -86,6 +87,9 @@ class SqliteImpl(SqlImpl):
             and fn.dtype().is_float()
         ):
             return sqa.cast(val, sqa.Double)
+        if fn.op == ops.bool_invert:
+            # the negation of a conjunction / disjunction loses its Boolean type
+            return sqa.type_coerce(val, sqa.Boolean())
         return val
 
     @classmethod
